@@ -100,6 +100,10 @@ func (fr *Frame) callFunc(v ssa.Value, f *ssa.Function, args []Val, bind []Val, 
 			key = f.Origin().String()
 		}
 	}
+	if r, ok := fr.wireNative(f, args, in); ok {
+		fr.setRes(v, r)
+		return
+	}
 	if r, ok := fr.nativeCall(f, args, in); ok {
 		fr.setRes(v, r)
 		return
